@@ -111,6 +111,9 @@ pub struct Inner {
     pub scripted_pending: bool,
     /// the async transport announces gathering writes (is_write_vectored) and takes them
     pub vectored: bool,
+    /// the async transport prepares the caller's whole buffer before it reads into it (`initialize_unfilled`, then
+    /// `advance(n)`), as TLS streams and std::io bridges do: more of the ReadBuf is initialised than filled
+    pub init_unfilled: bool,
     /// poll_flush stays Pending for this many polls after every accepted write (async only)
     pub slow_flush: u8,
     pub flush_owed: u8,
@@ -270,7 +273,14 @@ impl AsyncRead for World {
                 Poll::Pending
             },
             Some(Ok(bytes)) => {
-                buf.put_slice(&bytes);
+                if w.init_unfilled {
+                    let dst = buf.initialize_unfilled();
+                    for b in dst.iter_mut() { *b = 0; }
+                    dst[..bytes.len()].copy_from_slice(&bytes);
+                    buf.advance(bytes.len());
+                } else {
+                    buf.put_slice(&bytes);
+                }
                 Poll::Ready(Ok(()))
             },
             Some(Err(e)) if e.to_string() == "verif: pending" => Poll::Pending,
@@ -389,6 +399,7 @@ pub fn run(inst: &Instance, hist: &[Act]) -> RunResult {
         inbound: inst.inbound(),
         script_writes: inst.script_writes,
         vectored: inst.vectored,
+        init_unfilled: inst.init_unfilled,
         slow_flush: inst.slow_flush,
         ..Default::default()
     }));
